@@ -94,6 +94,11 @@ def handleC18 : Handler := fun args =>
     match parseCfg cfg, retries.toInt?, parseOutcomes outs, parseCtx ctx with
     | some c, some r, some script, some (entry, evs) => showOut (runScript c r script entry evs [])
     | _, _, _, _ => "bad-op"
+  | ["retry-probe", cfg, retries, outs, thr] =>
+    match parseCfg cfg, retries.toInt?, parseOutcomes outs, thr.toInt? with
+    | some c, some r, some script, some thr =>
+      if c.jitter then "bad-op" else showOut (runProbe c r script thr)
+    | _, _, _, _ => "bad-op"
   | ["retry-elapsed", cfg, retries, outs, ctx, el] =>
     match parseCfg cfg, retries.toInt?, parseOutcomes outs, parseCtx ctx, el.toInt? with
     | some c, some r, some script, some (entry, evs), some el =>
